@@ -56,4 +56,24 @@ CLAIMED["C05"] = {
 }
 ENGINES[0]["serves_properties"] = ["C01", "C02", "C03", "C05", "C09", "C10"]
 ENGINES[2]["serves_properties"] = ["C01", "C02", "C10"]
+CLAIMED["C04"] = {
+    "engine": "seqspace",
+    "technique": "exhaustive product of a finite catalogue (molecule x geometry x reference x frozen-orbital pattern x encoding x ordering x active-space rotation) with an independent PySCF CASCI/UCASCI/FCI oracle",
+    "text": "Full product of 9 (thorough 10) small molecules x 2 geometries x RHF/ROHF/UHF x every valid frozen-orbital pattern (int, contiguous, non-contiguous occupied+virtual, interior virtual, per-spin equal/shifted/unequal lists) x JW/BK/scBK/JKMN x both orderings x 4-5 active-space rotations: the qubit Hamiltonian's diagonal element on the encoded reference determinant equals the mean-field energy; its lowest eigenvalue in the (n_alpha,n_beta) sector (dense, leak-checked) equals an independently folded PySCF CASCI/UCASCI energy (two oracle routes cross-checked at run time) and FCISolver/CCSDSolver where they apply; the sector minimum is invariant under active-active rotations. Bookkeeping of active/frozen lists, electron and spin counts is compared with a harness-side partition.",
+    "note": "Trusted: PySCF integrals/FCI kernels as chemistry oracle, numpy eigensolver. Not covered: > 12 active spin-orbitals, other basis sets, Psi4, molecules containing He (no CRENBL set for He in the installed PySCF: construction fails, counted as skipped).",
+}
+CLAIMED["C16"] = {
+    "engine": "stategraph",
+    "technique": "explicit-state BFS over pools of operator objects (every ordered pair x {+,-,*,+=,-=,*=,==}, results join the pool, depth 2/3) with a dict-based algebra oracle and operand snapshots; exhaustive word-pair enumeration for the array form",
+    "text": "Level-synchronous BFS over pools of Tangelo/openfermion fermionic and qubit operators, annotated and bare QubitHamiltonians and scalars: every ordered pair (including x op x) under + - * and their in-place forms and ==; after each transition every operand other than an in-place target must keep its value and annotations and the result must equal a dict-based reference computed from the pre-state; results join the pool so chains on shared operands are explored. MultiformOperator: all 16x16 two-qubit word pairs, 12x12 three-qubit pairs, all pairs of 2-term operators, every small integer array for collapse, do_commute against the symbolic commutator.",
+    "note": "Trusted: local dict-based fermionic/Pauli reference (self-tested against dense matrices). Tolerated: documented rejections; x += x / x -= x with the same object failing inside openfermion's SymbolicOperator (not Tangelo code). Not covered: depth > 3, cross-family operations.",
+}
+CLAIMED["C17"] = {
+    "engine": "seqspace",
+    "technique": "bounded exhaustive exploration: every gate word of depth <= 2 (3) over each format's full supported alphabet (all placements, 11 parameter values, width variants) exported and re-imported; every gate for repr/eval; every Pauli word x coefficient for operator conversion",
+    "text": "IonQ JSON (dict and json text routes) and ProjectQ text: all words of depth <= 2 over the complete supported alphabet (807 / 163 symbols incl. 1-2 controls, 11 parameter values incl. 1e-5, -1e-17, 12345.678, numpy floats) in six width variants, depth 3 on a one-parameter alphabet; import(export(c)) must equal c under Circuit.__eq__ and under a structural comparison (names modulo CNOT==CX, targets, controls, bit-exact parameters, width); every gate outside a format's set must be refused (at export or loudly at import), never altered. eval(repr(g)) for 3516 gates; tangelo<->cirq and tangelo<->openfermion operator round trips for every Pauli word on <= 3 qubits x 4 coefficients and all 2-term sums.",
+    "note": "OpenQASM / qiskit / braket / projectq-operator clauses auto-skip (packages absent) and are counted in the evidence. Operator terms with |coef| <= 1e-8 may vanish (library equality tolerance).",
+}
+ENGINES[0]["serves_properties"] = ["C01", "C02", "C03", "C04", "C05", "C09", "C10", "C17"]
+ENGINES[1]["serves_properties"] = ["C11", "C16"]
 NOT_CLAIMED = {}
